@@ -23,6 +23,7 @@ func c20(c *Ctx) {
 		"is tested on u.Hostname() (port-insensitive); scheme arms: '', http, https → web resolver, tg and everything else → error; the username is " +
 		"lower-cased and the invite token is not."
 	r.NotDecided = []string{"net/url's own totality and percent-escape semantics"}
+	c.errorsKept("R20.X", "the link resolver (package deeplinks)", 1, inPkgs(load.DeepPkg))
 	r.Rule("R20.P", "every panic-capable operation reachable from Resolve is discharged by a guard or accepted with a reason", 2)
 	r.Rule("R20.T", "path templates are pairwise disjoint (different segment counts or a differing literal segment)", 1)
 	r.Rule("R20.H", "reserved hosts = the five Telegram hosts; membership tested on Hostname(); scheme arms route as documented", 4)
